@@ -164,25 +164,31 @@ class Native:
                 except Exception: break
         return res, rc, err
 
+    @staticmethod
+    def _brief(err):
+        ls = [l.strip() for l in (err or '').split('\n') if re.search(r'ERROR|SUMMARY|runtime error|Assertion|TIMEOUT', l)]
+        return ' / '.join(ls[:2])[:400] if ls else (err or '')[-300:]
+
     def run(s, mode, cases, tag, max_failures=5):
         """cases: list of (texts, main) -> list of results: the driver's JSON, {'crash': .., 'why': ..} (crash, sanitizer report, leak, hang) or {'skipped': True}"""
         exe = s.build(mode)
         if exe is None: return [{'crash': True, 'why': 'native build failed: ' + s.err.get(mode, '')}] * len(cases)
-        out = []; start = 0; failures = 0; part = 0
+        out = []; start = 0; failures = 0; part = 0; CH = 100
         while start < len(cases):
             if failures >= max_failures:
                 out += [{'skipped': True}] * (len(cases) - start); break
-            rest = cases[start:]
-            res, rc, err = s._once(exe, mode, rest, '%s_%d' % (tag, part), 8 + len(rest) // 15); part += 1
-            if len(res) == len(rest) and rc == 0: out += res; break
+            rest = cases[start:start + CH]
+            # (a chunk of 100 graphs takes about a second for scan and a few seconds for parse; a run that does not terminate costs one timeout)
+            res, rc, err = s._once(exe, mode, rest, '%s_%d' % (tag, part), 10 if len(rest) == 1 else (45 if mode == 'scan' else 120)); part += 1
+            if len(res) == len(rest) and rc == 0: out += res; start += len(rest); continue
             if len(res) == len(rest):
                 # every case answered but the process failed at exit (leak report): find one case that fails on its own
                 for i in range(min(len(rest), 6)):
-                    r1, rc1, err1 = s._once(exe, mode, [rest[i]], '%s_s%d' % (tag, i), 8)
+                    r1, rc1, err1 = s._once(exe, mode, [rest[i]], '%s_s%d' % (tag, i), 10)
                     if rc1 != 0 or len(r1) != 1:
-                        res[i] = {'crash': True, 'why': 'rc=%s %s' % (rc1, err1[-500:])}; break
-                out += res; break
-            out += res + [{'crash': True, 'why': 'rc=%s %s' % (rc, err[-500:])}]
+                        res[i] = {'crash': True, 'why': 'rc=%s %s' % (rc1, s._brief(err1))}; break
+                out += res; start += len(rest); failures += 1; continue
+            out += res + [{'crash': True, 'why': 'rc=%s %s' % (rc, s._brief(err))}]
             start += len(res) + 1; failures += 1
         return out
 
@@ -371,7 +377,8 @@ def solver_jobs(E, tier, seed, wd):
                   'create_scanner labels scanner, ScannerInfo and buffer with the requested name/content and starts at line 1; a push after a negative test keeps names pairwise distinct; cleanup_scanner releases scanner, buffer and ScannerInfo'))
     # --- S: the include graph is the solver's
     c1 = cfg(3, 2, 3)
-    specs.append(('graph3', c1, 'h_scan', [(-1, 2, [I, Fs()])] * 3, -1, 7, 'three files, each consisting of one include directive: targets (any of the 3 files, 2 absent names, the empty name), presence of every file and the main name (incl. absent) symbolic - every include graph with out-degree 1 over <= 3 files'))
+    specs.append(('all_3_2', c1, 'h_scan_all', [(-1, -1, [])] * 3, -1, 8, 'EVERYTHING symbolic: 3 files, scripts of <= 2 entries (any of: ordinary token of any kind, include, quoted name naming any of the 3 files, 2 absent names or the empty name), '
+                  '<= 3 file visits, presence bits, main name (incl. absent) - in particular every include graph with out-degree <= 1 over <= 3 files: self include, 2- and 3-cycles, chains, missing targets'))
     c2 = cfg(2, 4, 3)
     specs.append(('twice2', c2, 'h_scan', [(-1, 4, [I, Fs(), I, Fs()]), (-1, 1, [T])], -1, 8, 'a file with two include directives in a row over a one-token file: targets, presence bits and main name symbolic (same file twice in sequence, self include, mixed with missing files)'))
     c3 = cfg(2, 3, 2)
@@ -387,6 +394,8 @@ def solver_jobs(E, tier, seed, wd):
         specs.append(('graph4', c7, 'h_scan', [(-1, 2, [I, Fs()])] * 4, -1, 9, 'four files, each one include directive: every include graph with out-degree 1 over <= 4 files, presence and main symbolic'))
         c8 = cfg(3, 4, 3)
         specs.append(('twice3', c8, 'h_scan', [(1, 4, [I, Fs(), I, Fs()]), (-1, 2, [I, Fs()]), (-1, 1, [T])], 0, 8, 'main with two include directives over a file with one include and a one-token file, all targets and presence bits symbolic, <= 3 file visits'))
+        c9 = cfg(3, 4, 5)
+        specs.append(('twice3_v5', c9, 'h_scan', [(1, 4, [I, Fs(), I, Fs()]), (-1, 2, [I, Fs()]), (-1, 1, [T])], 0, 12, 'as twice3 with <= 5 file visits: every expansion of that family (a file included twice whose own include is expanded twice)'))
     jobs = []
     for (name, c, entry, files, main, unw, what) in specs:
         vals = shape_values(c, files, main, ID)
@@ -598,8 +607,10 @@ def run(prop, tier, seed, wd, t0):
         else:
             out.disagreements += 1
             out.inconclusive.append('%s: counterexample for "%s" did not reproduce through the native scan() (encoding disagreement or a difference that the public API does not show; replay %s)' % (v['job'], v['assertion'], path))
+    def rank(a): return (0 if a.startswith('C15') else 1 if a.startswith('C14') else 2 if a.startswith('C02: every') else 3 if a.startswith('C02') else 4, a)
     for k in keep:
-        k['assertion'] = '%s%s | native: %s' % (k['assertion'], (' (+%d more failed assertions on this input)' % (len(k['all']) - 1)) if len(k['all']) > 1 else '', k['native'])
+        lead = sorted(k['all'], key=rank)[0]
+        k['assertion'] = '%s%s | native: %s' % (lead, (' (+%d more failed assertions on this input)' % (len(k['all']) - 1)) if len(k['all']) > 1 else '', k['native'])
     if unreplayed:
         msg = '%d further failed assertions (other counterexample inputs) were not replayed natively: replay budget of 8 inputs per run' % unreplayed
         if keep: out.notes.append(msg)
@@ -618,7 +629,7 @@ def run(prop, tier, seed, wd, t0):
         texts = {k: v for k, v in texts.items() if k in present}
         cases.append((texts, main)); metas.append((lay, sc, sorted(present), main, ref_expand(E, view, present, main)))
     got_s = nat.run('scan', cases, 'val')
-    only_ids = [i for i, m in enumerate(metas) if all(e[0] != 'T' or e[1] == E.tok['ID'] for v in m[1].values() for e in v)]
+    only_ids = [i for i, m in enumerate(metas) if all(e[0] != 'T' or e[1] == E.tok['ID'] for v in m[1].values() for e in v)][:120 if tier == 'quick' else 600]   # Theo::parse per graph costs ~0.2 s (it builds the LR tables of the standard macros)
     got_p = nat.run('parse', [cases[i] for i in only_ids], 'valp')
     parse_of = dict(zip(only_ids, got_p))
     validated = 0; parse_validated = 0; native_samples = []; not_run = 0
